@@ -7,7 +7,7 @@ Ev == Events(h)[l]
 TProduce == /\ l <= Len(Events(h)) /\ Ev.e = "Produce"
             /\ Produce(Ev.status, Ev.framing, Ev.full, Ev.len, Ev.fin) /\ l' = l + 1 /\ h' = h
 TConsume == /\ l <= Len(Events(h)) /\ Ev.e = "Consume"
-            /\ Consume(Ev.status, Ev.framing, Ev.declared, Ev.len, Ev.intact, Ev.complete, Ev.squidError) /\ l' = l + 1 /\ h' = h
+            /\ Consume(Ev.status, Ev.framing, Ev.declared, Ev.len, Ev.intact, Ev.complete, Ev.squidError, Ev.cver) /\ l' = l + 1 /\ h' = h
 TNext == TProduce \/ TConsume
 Mark == MarkAccepted(h, l)
 ====
